@@ -12,7 +12,7 @@ pub fn binom(n: u128, k: u128) -> u128 {
 pub fn lattice_count(n: usize, d: u32) -> u128 { binom(n as u128 + d as u128, d as u128) }
 
 fn rec(buf: &mut [i64], pos: usize, left: u32, f: &mut dyn FnMut(&[i64])) {
-    if pos == buf.len() { f(buf); return; }
+    if pos == buf.len() { if crate::report::flooded() { return; } f(buf); return; }
     for v in 0..=left {
         buf[pos] = v as i64;
         rec(buf, pos + 1, left - v, f);
@@ -48,6 +48,7 @@ pub fn product<T: Copy>(alph: &[&[T]], mut f: impl FnMut(&[T])) {
     let mut idx = vec![0usize; n];
     let mut cur: Vec<T> = alph.iter().map(|a| a[0]).collect();
     loop {
+        if crate::report::flooded() { return; }
         f(&cur);
         let mut i = n;
         loop {
